@@ -1,5 +1,5 @@
 """property id -> units and reporting metadata (single source for MANIFEST.json)"""
-from units import specificity, best, fragments, static_list
+from units import specificity, best, fragments, static_list, hashing
 
 A_TABLES = ('compiler::build_dispatch_tables (grouping of classes by applicability mask, strides, recursion order) '
             'and assign_slots / assign_tree_slots / assign_lattice_slots are NOT under contract '
@@ -58,6 +58,16 @@ PROPS = {
         'level_note': 'clear() is bounded only; size() = std::distance is trusted; that the registration objects\' destructors call remove on the right catalog is checked textually only',
         'design_ref': 'DESIGN.md section 6 C18, 2.7',
         'unverified': ['class_declaration_aux / method / definition_info constructors and destructors calling push_back / remove (templates)', 'real dlclose timing'],
+        'assumptions': [],
+    },
+    'C05': {
+        'units': [hashing.jobs],
+        'level': 'proof',
+        'technique': 'CBMC/DFCC function and loop contracts on the extracted hash search, lookups and publish_vptrs; bit-precise lemmas for the multiply-shift',
+        'level_text': 'TBD',
+        'level_note': 'TBD',
+        'design_ref': 'DESIGN.md section 6 C05',
+        'unverified': [],
         'assumptions': [],
     },
 }
